@@ -26,6 +26,9 @@ pub struct JobRun {
     pub ctx: Arc<JobCtx>,
     pub probe_info: Vec<(u32, String, usize)>,
     pub edges: Vec<(u32, u32, &'static str)>,
+    pub routes: Vec<(u32, crate::build::RouteKind)>,
+    /// cache of the routing monitor's statistics
+    pub routing_stats: std::cell::RefCell<Option<crate::monitors::RoutingStats>>,
 }
 
 pub enum RunResult {
@@ -45,13 +48,13 @@ pub fn run_spec(job: &JobSpec, cfg: &ConfigSpec, opts: &RunOpts, addr: AddrSeed)
         batch: cfg.batch,
         crash: opts.crash,
     };
-    let info = Arc::new(std::sync::Mutex::new((Vec::new(), Vec::new())));
+    let info = Arc::new(std::sync::Mutex::new((Vec::new(), Vec::new(), Vec::new())));
     let info2 = info.clone();
     let build: BuildFn<Vec<SinkOut>> = Arc::new(move |env, host| {
         let mut b = Builder::new(env, bopts.clone());
         b.job(&job2);
         if host == 0 {
-            *info2.lock().unwrap() = (b.probe_info.clone(), b.edges.clone());
+            *info2.lock().unwrap() = (b.probe_info.clone(), b.edges.clone(), b.routes.clone());
         }
         let sinks = std::mem::take(&mut b.sinks);
         Box::new(move || sinks.into_iter().map(|c| c()).collect())
@@ -61,7 +64,7 @@ pub fn run_spec(job: &JobSpec, cfg: &ConfigSpec, opts: &RunOpts, addr: AddrSeed)
             let probes = ctx.take_probes();
             let sends = std::mem::take(&mut *ctx.sends.lock().unwrap());
             let recvs = std::mem::take(&mut *ctx.recvs.lock().unwrap());
-            let (probe_info, edges) = info.lock().unwrap().clone();
+            let (probe_info, edges, routes) = info.lock().unwrap().clone();
             RunResult::Done(JobRun {
                 hosts,
                 probes,
@@ -70,6 +73,8 @@ pub fn run_spec(job: &JobSpec, cfg: &ConfigSpec, opts: &RunOpts, addr: AddrSeed)
                 ctx,
                 probe_info,
                 edges,
+                routes,
+                routing_stats: Default::default(),
             })
         }
         JobOutcome::Deadlock(d) => RunResult::Deadlock(d, ctx),
